@@ -6,22 +6,25 @@ import vlib
 from vlib import zl, ql, zlit, qlit
 
 HEADER = '''From Coq Require Import ZArith QArith List Bool.
+From Bignums Require Import BigQ.
 From Pymoto Require Import Base.Num Base.Cmp Base.Qsqrt3 Base.SparseLin Base.FEMat Base.SpCanon.
 From Pymoto Require Import Model.Grid Model.Shape Model.ElemMat Model.Assembly.
 Import ListNotations.
 Open Scope Z_scope.
 Definition G (a b c : Z) := {| nelx := a; nely := b; nelz := c |}.
 Definition rel (s : Q) : Q := ((1 # 1000000000) * s)%Q.
-Definition inj (q : Q) : Qs3 := s3_of_Q q.
-Definition Kst (d : nat) (h : list Q) (E nu : Q) (mode : Z) := stiffness_element s3_root d (s3_injl h) (inj E) (inj nu) mode.
-Definition Kms (d : nat) (h : list Q) (mp : Q) (ndof : nat) := mass_element s3_root d (s3_injl h) (inj mp) ndof.
-Definition Kpo (d : nat) (h : list Q) (mp : Q) := poisson_element s3_root d (s3_injl h) (inj mp).
+Definition inj (q : Q) : Bs3 := s3_of (bq q).
+Definition injl (h : list Q) : list Bs3 := s3_injl (bql h).
+Definition Kst (d : nat) (h : list Q) (E nu : Q) (mode : Z) := stiffness_element s3_root d (injl h) (inj E) (inj nu) mode.
+Definition Kms (d : nat) (h : list Q) (mp : Q) (ndof : nat) := mass_element s3_root d (injl h) (inj mp) ndof.
+Definition Kpo (d : nat) (h : list Q) (mp : Q) := poisson_element s3_root d (injl h) (inj mp).
 (* element matrix: sqrt(3)-part is zero and the rational part is close to the implementation's array *)
-Definition elem_ok (t : Q) (Ke : list (list Qs3)) (obs : list (list Q)) : bool :=
-  s3_rational_m Ke && Qll_close t (s3_ratm Ke) obs.
-Definition keyed (T : list (Z * Z * Q)) : list (Z * Z * Q) := T.
-Definition probe (n : Z) (T : list (Z * Z * Q)) (v : list Q) : list Q := apply (to_triples T) (Z.to_nat n) v.
-Definition bcd (o : option Q) (M : list (list Q)) : Q := match o with Some v => v | None => elmat_max M end.
+Definition elem_ok (t : Q) (Ke : list (list Bs3)) (obs : list (list Q)) : bool :=
+  s3_rational_m Ke && bqm_close t (s3_ratm Ke) obs.
+Definition zt (T : list (Z * Z * Q)) : list (Z * Z * bigQ) := map (fun t => match t with (r, c, v) => (r, c, bq v) end) T.
+Definition probe (n : Z) (T : list (Z * Z * bigQ)) (v : list Q) : list bigQ := apply (to_triples T) (Z.to_nat n) (bql v).
+Definition bcd (o : option Q) (M : list (list bigQ)) : bigQ := bcdiag_default (option_map bq o) M.
+Definition tr (T : list (Z * Z * bigQ)) := map (fun t => match t with (r, c, w) => (c, r, w) end) T.
 '''
 
 ERR = {None: 0, 'TypeError': 1, 'ValueError': 2, 'IndexError': 3, 'AssertionError': 4, 'RuntimeError': 5}
@@ -164,7 +167,7 @@ def run(ctx):
         B = asm_mod.get_B(dN, voigt=voigt)
         ctx.count(f'get_B dim{dim}')
         add(('get_B', dim, voigt, dN.tolist()),
-            f'Qll_eqb (getB {vlib.blit(voigt)} {qmat(dN)}%Q) {qmat(B)}%Q')
+            f'bqm_close 0 (getB {vlib.blit(voigt)} (bqm {qmat(dN)}%Q)) {qmat(B)}%Q')
     for t in range(30 if quick else 200):
         E = fr(rng.choice((1.0, 2.5, 210.0, rng.uniform(0.1, 10))))
         nu = fr(rng.choice((0.0, 0.25, 0.3, -0.5, rng.uniform(-0.9, 0.45))))
@@ -173,7 +176,7 @@ def run(ctx):
         sc = max(1, float(np.abs(D).max()))
         ctx.count(f'get_D {mode}')
         add(('get_D', mode, float(E), float(nu)),
-            f'Qll_close (rel {qlit(fr(sc))}) (getD {qlit(E)}%Q {qlit(nu)}%Q {dict(strain=0, stress=1)[mode] if mode != "3d" else 2}) {qmat(D)}%Q')
+            f'bqm_close (rel {qlit(fr(sc))}) (getD (bq {qlit(E)}%Q) (bq {qlit(nu)}%Q) {dict(strain=0, stress=1)[mode] if mode != "3d" else 2}) {qmat(D)}%Q')
 
     # ---------------- (b) element matrices
     def elem_case(kind, dim, hs, **kw):
@@ -379,7 +382,7 @@ def build_case(ctx, pym, sp, c, add):
     g = f'(G {a} {b} {cz})'
     hq = ql([fr(h) for h in c['sizes']]) + '%Q'
     if kind == 'general':
-        Kmodel = qmat(c['elmat']) + '%Q'
+        Kmodel = '(bqm ' + qmat(c['elmat']) + '%Q)'
     elif kind == 'stiffness':
         kw = c['kw']
         Kmodel = f'(s3_ratm (Kst {dim}%nat {hq} {qlit(fr(kw["E"]))}%Q {qlit(fr(kw["nu"]))}%Q {MODES[kw["plane"]]}))'
@@ -389,7 +392,7 @@ def build_case(ctx, pym, sp, c, add):
     else:
         Kmodel = f'(s3_ratm (Kpo {dim}%nat {hq} {qlit(fr(c["kw"]["mp"]))}%Q))'
     bcq = opt(c.get('bc'), zl)
-    xq = ql([fr(v) for v in c['x']]) + '%Q'
+    xq = '(bql ' + ql([fr(v) for v in c['x']]) + '%Q)'
     label = (kind, tuple(c['grid']), tuple(c['sizes']), str(c.get('kw')), str(c.get('bc')), c.get('bcdiagval'), len(c.get('const') or []),
              c.get('matrix_type'), tuple(c['x']), c.get('malformed'), c.get('corpus'), str(c.get('elmat'))[:200])
     ctx.count(f'asm {kind} dim{dim}' + (' malformed' if c.get('malformed') else ''))
@@ -410,7 +413,7 @@ def build_case(ctx, pym, sp, c, add):
     default_mass = kind == 'mass' and c.get('bcdiagval') is None
     bcdq = '(Some 0)' if default_mass else opt(c.get('bcdiagval'), lambda v: qlit(fr(v)))
     cst = trip([(int(t[0]), int(t[1]), fr(t[2])) for t in (c.get('const') or [])])
-    T = f'(asm_matrix {g} Ke {bcq} (bcd {bcdq}%Q Ke) {cst} {xq})'
+    T = f'(asm_matrix {g} Ke {bcq} (bcd {bcdq}%Q Ke) (zt {cst}) {xq})'
     scale = max([1.0] + [abs(float(v)) for _, v in items])
     tol = '0' if c.get('exact') else f'(rel {qlit(fr(scale))})'
     strict = vlib.blit(is_sparse and not c.get('const'))
@@ -431,10 +434,10 @@ def build_case(ctx, pym, sp, c, add):
             Av = A @ v
             Atv = A.T @ v
             sc = max(1.0, float(np.abs(Av).max()), float(np.abs(Atv).max()))
-            cmpf = 'Ql_eqb' if c.get('exact') else f'Ql_close (rel {qlit(fr(sc))})'
+            cmpf = 'bql_close 0' if c.get('exact') else f'bql_close (rel {qlit(fr(sc))})'
             vq = ql([fr(t) for t in v]) + '%Q'
             parts.append(f'{cmpf} (probe {n} {T} {vq}) {ql([fr(t) for t in np.asarray(Av).ravel()])}%Q')
-            parts.append(f'{cmpf} (probe {n} (map (fun t => match t with (r, c, w) => (c, r, w) end) {T}) {vq}) {ql([fr(t) for t in np.asarray(Atv).ravel()])}%Q')
+            parts.append(f'{cmpf} (probe {n} (tr {T}) {vq}) {ql([fr(t) for t in np.asarray(Atv).ravel()])}%Q')
         if is_sparse and not c.get('const'):
             parts.append(f'Nat.eqb (length (sp_canon {n} {T})) {len(items)}')
     add(label, f'(let Ke := {Kmodel} in ' + ' && '.join(parts) + ')', nontrivial, case={k: v for k, v in c.items() if not k.startswith('_')})
